@@ -175,6 +175,8 @@ fn denotes(s: &str) -> Option<(String, [u8; 32])> {
 /// Judge an accepted value. `family` is the key prefix (code site), `via` the concrete entry point, `input`
 /// what it was given. Returns true iff the value is clean.
 fn judge(ctx: &Ctx, family: &str, via: &str, input: &str, v: &IotaDID, case: &Case) -> bool {
+  // the "denotes what was given" clause belongs to the constructor when one was used
+  let site = if via == "IotaDID::new" || via == "IotaDID::from_alias_id" { via } else { family };
   let vs = match guard(|| v.as_str().to_owned()) {
     Ok(s) => s,
     Err(p) => {
@@ -255,7 +257,7 @@ fn judge(ctx: &Ctx, family: &str, via: &str, input: &str, v: &IotaDID, case: &Ca
     match denotes(input) {
       Some((n, t)) => {
         if n != net || t != tag {
-          ctx.violation(&format!("{family}|value-denotes-other-network-or-tag"), &format!("{via}({input:?}) = {vs:?}"), case);
+          ctx.violation(&format!("{site}|value-denotes-other-network-or-tag"), &format!("{via}({input:?}) = {vs:?}"), case);
           return false;
         }
       }
